@@ -293,7 +293,9 @@ func runC07(c *Ctx) {
 	c.Guard(r3, sy, "ask for another attempt", `^store:new\(bool\)=true$`, 1, clause("retry allowed", T(`^%canRetry$`)),
 		clause("RESULT could not be queued", F(`^\(select\{send:.*<-new\(wamp\.Result\);default\}#0 == 0\)$`)))
 	c.Has(r3, y, "deadline is sendResultDeadline (one minute)", `^val:call:time\.Since\(call:time\.Now\(\)\)$|^call:time\.Since\(call:time\.Now\(\)\)$`, 1)
-	c.R.Floor(r3, 6)
+	c.Fields(r3, sy, "the call given up after the deadline is cancelled under the caller's own request id", "wamp.Cancel", nil, map[string]string{"Request": `^%d\.invocations\[\*new\(router\.requestID\)\{session=%callee\.ID,request=%msg\.Request\}\],ok#0\.callID\.request$`}, 1)
+	c.Has(r3, sy, "… for the session that made the call", `^call:router\.\(\*dealer\)\.syncCancel\(%d, %d\.calls\[%d\.invocations\[\*new\(router\.requestID\)\{session=%callee\.ID,request=%msg\.Request\}\],ok#0\.callID\],ok#0, new\(wamp\.Cancel\), "killnowait"`, 1)
+	c.R.Floor(r3, 8)
 
 	// R4 queue sizes
 	const r4 = "C07.R4 outbound queues have the configured size"
